@@ -87,7 +87,7 @@ var ttlIRIPool = []string{
 }
 
 var ttlNamespaces = []string{"http://example.org/", "http://example.org/ns#", "http://example.org/dir/", "urn:x:", xsdNS, rdfNS, "http://example.org/a?q=", "http://other.example/p/"}
-var ttlPrefixNames = []string{"", "ex", "e", "a.b", "é-1", "x_y", "rdf", "xsd", "P", "a·b"}
+var ttlPrefixNames = []string{"", "ex", "e", "a.b", "é-1", "x_y", "rdf", "xsd", "P", "a·b", "true", "false", "graph", "GRAPH", "base", "prefix", "a", "trueish", "PREFIX", "Base"}
 
 func iriEscapeSome(r *hx.Rand, s string) string {
 	var sb strings.Builder
